@@ -8,6 +8,7 @@ import (
 	"regexp"
 	"sort"
 	"strings"
+	"unicode/utf16"
 
 	"verifharness/internal/rng"
 )
@@ -661,7 +662,26 @@ func MakeForeign(r *rng.R, opts ForeignOpts) *Foreign {
 	}
 	if r.Chance(1, 3) {
 		w.feature("customXml")
-		f.put("customXml/item1.xml", hdr+`<root xmlns="urn:custom"><v>1</v></root>`)
+		item := hdr + `<root xmlns="urn:custom"><v>1</v></root>`
+		if !opts.Simple && r.Chance(1, 3) {
+			// a data item stored as UTF-16 with byte order mark (what .NET writes by default): a part like any other
+			le := r.Bool()
+			x := strings.Replace(item, `encoding="UTF-8"`, `encoding="UTF-16"`, 1) + "<!-- Größe: 5 µm -->"
+			b := []byte{0xfe, 0xff}
+			if le {
+				b = []byte{0xff, 0xfe}
+			}
+			for _, u := range utf16.Encode([]rune(x)) {
+				if le {
+					b = append(b, byte(u), byte(u>>8))
+				} else {
+					b = append(b, byte(u>>8), byte(u))
+				}
+			}
+			item = string(b)
+			w.feature("utf-16-data-item")
+		}
+		f.put("customXml/item1.xml", item)
 		f.put("customXml/itemProps1.xml", hdr+`<ds:datastoreItem xmlns:ds="http://schemas.openxmlformats.org/officeDocument/2006/customXml" ds:itemID="{A}"/>`)
 		f.put("customXml/_rels/item1.xml.rels", hdr+`<Relationships xmlns="`+relNS+`"><Relationship Id="rId1" Type="`+relT+`customXmlProps" Target="itemProps1.xml"/></Relationships>`)
 		ovr("customXml/itemProps1.xml", "application/vnd.openxmlformats-officedocument.customXmlProperties+xml")
@@ -783,7 +803,22 @@ func MakeForeign(r *rng.R, opts ForeignOpts) *Foreign {
 		f.put("docProps/app.xml", hdr+`<Properties xmlns="http://schemas.openxmlformats.org/officeDocument/2006/extended-properties"><Application>Other App</Application></Properties>`)
 		ovr("docProps/core.xml", "application/vnd.openxmlformats-package.core-properties+xml")
 		ovr("docProps/app.xml", "application/vnd.openxmlformats-officedocument.extended-properties+xml")
-		pkgRels = append(pkgRels, `<Relationship Id="rId7" Type="http://schemas.openxmlformats.org/package/2006/relationships/metadata/core-properties" Target="docProps/core.xml"/>`,
+		coreTarget := "docProps/core.xml"
+		if !opts.Simple && r.Chance(1, 3) {
+			// the name System.IO.Packaging / the Open XML SDK give the core properties part
+			coreName := "package/services/metadata/core-properties/6b1f0c2a9d5e4c7f8a1b2c3d4e5f6a7b.psmdcp"
+			f.Parts[coreName] = f.Parts["docProps/core.xml"]
+			delete(f.Parts, "docProps/core.xml")
+			for i, n := range f.Order {
+				if n == "docProps/core.xml" {
+					f.Order[i] = coreName
+				}
+			}
+			ct[len(ct)-2] = `<Override PartName="/` + coreName + `" ContentType="application/vnd.openxmlformats-package.core-properties+xml"/>`
+			coreTarget = "/" + coreName
+			w.feature("core-properties-part-named-psmdcp")
+		}
+		pkgRels = append(pkgRels, `<Relationship Id="rId7" Type="http://schemas.openxmlformats.org/package/2006/relationships/metadata/core-properties" Target="`+coreTarget+`"/>`,
 			`<Relationship Id="rId8" Type="`+relT+`extended-properties" Target="docProps/app.xml"/>`)
 	}
 	if r.Chance(1, 4) {
